@@ -60,8 +60,7 @@ func checkPartialFlagMonotone(r *Run, ap *packages.Package) {
 	}
 }
 
-func checkNodeIDsNotNarrowed(r *Run, pkgs ...*packages.Package) {
-	const rule = "C15-R7-node-ids-not-narrowed"
+func checkNodeIDsNotNarrowed(r *Run, rule string, pkgs ...*packages.Package) {
 	scanned, bad := 0, 0
 	for _, p := range pkgs {
 		info := p.TypesInfo
@@ -104,5 +103,5 @@ func checkNodeIDsNotNarrowed(r *Run, pkgs ...*packages.Package) {
 			}
 		}
 	}
-	r.Ob(rule, "algo+container:scanned", token.NoPos, true, "%d conversions of 64-bit values examined, %d narrow an ID", scanned, bad)
+	r.Ob(rule, "scanned", token.NoPos, true, "%d conversions of 64-bit values examined, %d narrow an ID", scanned, bad)
 }
